@@ -246,8 +246,11 @@ class SimpleARTMAP(BaseARTMAP):
         self.classes_ = unique_labels(y)
         self.labels_ = y
         # init module A
+        self.map = dict()
         self.module_a.W = []
         self.module_a.labels_ = np.zeros((X.shape[0],), dtype=int)
+        self.module_a.sample_counter_ = 0
+        self.module_a.weight_sample_counter_ = []
 
         for _ in range(max_iter):
             if verbose:
